@@ -2,7 +2,9 @@ package command
 
 import (
 	"context"
+
 	"encoding/json"
+	"github.com/pkg/errors"
 	"math/big"
 
 	"github.com/ThreeDotsLabs/watermill/message"
@@ -21,6 +23,7 @@ type zzStore struct {
 	*storage.InMemoryStore
 	opening   map[string]map[string]*big.Int // account -> asset -> opening balance
 	failNext  bool
+	failClass int // which error a failing InsertLogs returns
 	inserts   int
 	failedIns int
 }
@@ -55,6 +58,12 @@ func (s *zzStore) InsertLogs(ctx context.Context, logs ...*ledger.ChainedLog) er
 	if s.failNext {
 		s.failNext = false
 		s.failedIns++
+		switch s.failClass {
+		case 1: // the way a database driver reports a statement cut short by its context
+			return errors.Wrap(context.Canceled, "inserting logs")
+		case 2:
+			return errors.Wrap(context.DeadlineExceeded, "inserting logs")
+		}
 		return zzInsertFailure{}
 	}
 	s.inserts++
